@@ -273,3 +273,43 @@ func (p *Prog) inside(n, outer ast.Node) bool {
 	}
 	return false
 }
+
+// pathToNodeAvoiding searches for a path from the function entry to the CFG
+// node `to` on which no earlier node satisfies cut.
+func (fl *flow) pathToNodeAvoiding(to blockNode, cut func(ast.Node) bool) ([]ast.Node, bool) {
+	if len(fl.G.Blocks) == 0 {
+		return nil, false
+	}
+	seen := map[*cfg.Block]bool{}
+	var path []ast.Node
+	var dfs func(b *cfg.Block) bool
+	dfs = func(b *cfg.Block) bool {
+		mark := len(path)
+		for i, n := range b.Nodes {
+			if b == to.B && i == to.I {
+				return true
+			}
+			if cut(n) {
+				path = path[:mark]
+				return false
+			}
+			path = append(path, n)
+		}
+		for _, s := range b.Succs {
+			if seen[s] {
+				continue
+			}
+			seen[s] = true
+			if dfs(s) {
+				return true
+			}
+		}
+		path = path[:mark]
+		return false
+	}
+	seen[fl.G.Blocks[0]] = true
+	if dfs(fl.G.Blocks[0]) {
+		return path, true
+	}
+	return nil, false
+}
